@@ -201,36 +201,135 @@ def runFn (g : AGraph) (T : Nat) : Nat → List Nat → String → List Int → 
         | none => { r with evs := .err :: r.evs, ok := false }
         | some (pth, n) => runFn g T fuel pth n r.vars r.evs) { vars, evs, ok := true }
 
+/-- one object per program file; labels of the case name them -/
 structure SObj where
-  oid : String
   prog : Nat
   vars : List Int
 
+structure SSt where
+  objs : List SObj := []
+  labels : List (String × Nat) := []
+  evs : List Ev := []            -- newest first
+
+def SSt.obj? (s : SSt) (p : Nat) : Option SObj := s.objs.find? (·.prog == p)
+
+def SSt.setVars (s : SSt) (p : Nat) (vs : List Int) : SSt :=
+  { s with objs := s.objs.map (fun o => if o.prog == p then { o with vars := vs } else o) }
+
+def SSt.emit (s : SSt) (e : Ev) : SSt := { s with evs := e :: s.evs }
+
+def SSt.showVars (s : SSt) (label : String) (p : Nat) : SSt :=
+  match s.obj? p with
+  | some o => s.emit (.vars label o.vars)
+  | none => s
+
 def callerOf (origin : String) : Caller :=
-  if origin == "co" || origin == "com" then .callOther
-  else if origin == "drv" then .driver
+  if origin == "co" || origin == "com" || origin == "coa" || origin == "cos" then .callOther
+  else if origin == "drv" || origin == "hb" then .driver
   else .callOut
 
-/-- expected events of one `call <origin> <oid> <fn>`; depends on the graph, the kind of caller and the
-    object's variables only — there is no call history in the specification -/
-def specCall (g : AGraph) (objs : List SObj) (origin oid fn : String) : List Ev × List SObj :=
-  match objs.find? (·.oid == oid) with
-  | none => ([Ev.call origin oid fn, .ret "!noobj"], objs)
+/-- outcome of a call by name of a caller of kind c on the object of program p: depends on the graph, the kind of
+    caller and the object's variables only — there is no call history and no "origin left over" in the specification -/
+inductive Outcome where
+  | absent                 -- no such function, or not allowed for this caller
+  | ran (tag : String)
+  | failed                 -- ran into a runtime error
+  | noobj
+  deriving Repr, BEq
+
+def callOn (g : AGraph) (s : SSt) (c : Caller) (p : Nat) (fn : String) : Outcome × SSt :=
+  match s.obj? p with
+  | none => (.noobj, s)
   | some ob =>
-    -- the heart beat is not a call by a name the caller chooses: the driver runs the object's `heart_beat`, if it has one
-    let fn' := if origin == "hb" then "heart_beat" else fn
-    let swept := origin == "rco" || origin == "hb"
-    let sweptTxt := if origin == "hb" then "ticked" else "swept"
-    match resolve g.toS ob.prog fn' with
-    | none => ([Ev.call origin oid fn, .ret (if swept then sweptTxt else "!no"), .vars oid ob.vars], objs)
+    match resolve g.toS p fn with
+    | none => (.absent, s)
     | some path =>
-      if !(allowed (callerOf origin) (effMods g fn' ob.prog path)) then
-        ([Ev.call origin oid fn, .ret "!no", .vars oid ob.vars], objs)
+      if !(allowed c (effMods g fn p path)) then (.absent, s)
       else
-        let r := runFn g ob.prog 64 path fn' ob.vars []
-        let defProg := ((g[endOf g ob.prog path]?).map (·.name)).getD "?"
-        let retv := if swept then sweptTxt else if r.ok then s!"\"{defProg}:{fn'}\"" else "!err"
-        ([Ev.call origin oid fn] ++ r.evs.reverse ++ [.ret retv, .vars oid r.vars],
-         objs.map (fun o => if o.oid == oid then { o with vars := r.vars } else o))
+        let r := runFn g p 64 path fn ob.vars s.evs
+        let s := { (s.setVars p r.vars) with evs := r.evs }
+        let defProg := ((g[endOf g p path]?).map (·.name)).getD "?"
+        (if r.ok then .ran s!"\"{defProg}:{fn}\"" else .failed, s)
+
+/-- loading the object of program p: the inherited files first, in the order of the inherit statements; every new
+    object runs its `create` (a driver call: whatever its modifiers) if it has one -/
+def specLoad (g : AGraph) : Nat → SSt → Nat → SSt
+  | 0, s, _ => s
+  | fuel + 1, s, p =>
+    match s.obj? p with
+    | some _ => s
+    | none =>
+      match g[p]? with
+      | none => s
+      | some P =>
+        let s := P.inherits.foldl (fun s i => specLoad g fuel s (g.indexOf i.parent)) s
+        let s := { s with objs := s.objs ++ [{ prog := p, vars := List.replicate (size g (g.length + 1) p) 0 }] }
+        (callOn g s .driver p "create").2
+
+inductive STarget where
+  | obj (label : String)
+  | path (name : String)
+  | other
+  deriving Repr, BEq
+
+def STarget.label : STarget → String
+  | .obj l => l
+  | .path n => "=" ++ n
+  | .other => "0"
+
+def SSt.progOf (g : AGraph) (s : SSt) : STarget → Option Nat
+  | .obj l => (s.labels.find? (·.1 == l)).map (·.2)
+  | .path n => let i := g.indexOf n; if i < g.length then some i else none
+  | .other => none
+
+/-- expected events of `call <origin> <oid> <fn>` (single object target) -/
+def specCall (g : AGraph) (s : SSt) (origin oid fn : String) : SSt :=
+  let s := s.emit (.call origin oid fn)
+  match (s.labels.find? (·.1 == oid)).map (·.2) with
+  | none => s.emit (.ret "!noobj")
+  | some p =>
+    -- the heart beat is not a call by a name the caller chooses: the driver runs the object's `heart_beat`, if any
+    let fn' := if origin == "hb" then "heart_beat" else fn
+    let quiet := if origin == "hb" then some "ticked" else if origin == "rco" then some "swept" else none
+    let (o, s) := callOn g s (callerOf origin) p fn'
+    let txt := match quiet, o with
+      | some q, _ => q
+      | none, .absent => "!no"
+      | none, .ran tag => tag
+      | none, .failed => "!err"
+      | none, .noobj => "!noobj"
+    (s.emit (.ret txt)).showVars oid p
+
+/-- expected events of a call_other on an array of targets / on a file name: every element is an ordinary call_other
+    on that element's object (loaded on demand), independent of the other elements and of what loading did -/
+def specCallTargets (g : AGraph) (s : SSt) (isArray : Bool) (ts : List STarget) (fn : String) : SSt :=
+  let shown := ",".intercalate (ts.map STarget.label)
+  let s := s.emit (.call (if isArray then "coa" else "cos") shown fn)
+  let showAll (s : SSt) : SSt := ts.foldl (fun s t => match s.progOf g t with | some p => s.showVars t.label p | none => s) s
+  if isArray then
+    let (res, s, ok) := ts.foldl (fun (acc : List String × SSt × Bool) t =>
+      let (res, s, ok) := acc
+      if !ok then acc else
+      match s.progOf g t with
+      | none => (res ++ ["0"], s, true)
+      | some p =>
+        let s := match t with | .path _ => specLoad g (g.length + 1) s p | _ => s
+        let (o, s) := callOn g s .callOther p fn
+        match o with
+        | .ran tag => (res ++ [tag], s, true)
+        | .failed => (res, s, false)
+        | _ => (res ++ ["0"], s, true)) ([], s, true)
+    showAll (s.emit (.ret (if ok then "({" ++ ",".intercalate res ++ "})" else "!err")))
+  else
+    match ts with
+    | [t] =>
+      match s.progOf g t with
+      | none => (s.emit .err).emit (.ret "!err")
+      | some p =>
+        let s := specLoad g (g.length + 1) s p
+        let (o, s) := callOn g s .callOther p fn
+        let txt := match o with | .ran tag => tag | .failed => "!err" | _ => "0"
+        showAll (s.emit (.ret txt))
+    | _ => s
 
 end NV.C07.Spec
